@@ -15,7 +15,11 @@ SM9N == BFromBE(<<\hB6,\h40,\h00,\h00,\h02,\hA3,\hA6,\hF1,\hD6,\h03,\hAB,\h4F,\h
 Events == ndJsonDeserialize(IOEnv.TRACE)
 N == Len(Events)
 VARIABLES tpos, tst, tlast
-St0 == [acc |-> <<>>, cnt |-> [j \in 1..256 |-> 0], m |-> 0]
+\* per (library, operation) bit counters: a sampler that is biased for ONE operation only (a re-draw loop in one call site) is invisible in the pooled counts
+KindSet == {"sm2.keygen", "sm2.sign", "sm2.encrypt", "sm2.kx1", "sm2.kx2", "sm9.keygen-sign", "sm9.keygen-sign2", "sm9.keygen-enc", "sm9.keygen-enc2",
+            "sm9.sign", "sm9.encrypt", "sm9.kx1a", "sm9.kx1b"}
+KindOf(e) == e.lib \o "." \o e.kind
+St0 == [acc |-> <<>>, cnt |-> [j \in 1..256 |-> 0], m |-> 0, kc |-> [kd \in KindSet |-> [j \in 1..256 |-> 0]], km |-> [kd \in KindSet |-> 0]]
 Verdict(e, ok, class, kind) == <<e.id, IF ok THEN "ok" ELSE "dev", e.prop, class, IF ok THEN "-" ELSE kind>>
 S9 == INSTANCE SM9                                  \* the SM9 specification (namespaced: it has its own N, P, G ...)
 OrderOf(e) == IF e.lib = "sm2" THEN NN ELSE SM9N
@@ -48,16 +52,32 @@ OpKind(e, k) == IF e.outcome # "ok" THEN "operation-" \o e.outcome ELSE IF ~OneA
 OpClass(e) == e.lib \o "." \o e.kind \o (IF IsRetry(e) THEN ".retry" ELSE IF e.scripted = 1 THEN ".injected" ELSE "")
 Op2(e, k) == /\ tlast' = Verdict(e, e.outcome = "ok" /\ OneAccept(e) /\ AllAcceptedInRange(e) /\ UsedOK(e, BFromBE(k)), OpClass(e), OpKind(e, k))
              /\ tst' = IF e.scripted = 1 \/ e.outcome # "ok" \/ ~OneAccept(e) THEN tst
-                       ELSE [acc |-> Append(tst.acc, k), cnt |-> TLCEval(AddBits(tst.cnt, k)), m |-> tst.m + 1]
+                       ELSE [acc |-> Append(tst.acc, k), cnt |-> TLCEval(AddBits(tst.cnt, k)), m |-> tst.m + 1,
+                             kc |-> IF KindOf(e) \in KindSet THEN [tst.kc EXCEPT ![KindOf(e)] = TLCEval(AddBits(tst.kc[KindOf(e)], k))] ELSE tst.kc,
+                             km |-> IF KindOf(e) \in KindSet THEN [tst.km EXCEPT ![KindOf(e)] = @ + 1] ELSE tst.km]
 Op1(e) == Op2(e, IF Len(e.draws) >= 1 THEN e.draws[Len(e.draws)].c ELSE <<>>)
 \* summary: no scalar repeats (across operations and across the two driver processes); every bit unbiased within 8 sigma
 NoRepeat == Cardinality({tst.acc[j] : j \in 1..Len(tst.acc)}) = Len(tst.acc)
 Sq(x) == x * x
 Dev(c, m) == IF 2 * c >= m THEN 2 * c - m ELSE m - 2 * c
 Unbiased == \A j \in 1..256 : Dev(tst.cnt[j], tst.m) <= 46340 /\ Sq(Dev(tst.cnt[j], tst.m)) <= 64 * tst.m
+\* exact per-bit test for ONE operation kind: a uniform scalar on [1, ord-1] has bit b set with probability A/D, D = ord - 1 and
+\* 2A = (ord - lo) + 2 max(0, lo - 2^b), lo = ord mod 2^(b+1)  (division-free).  Accept iff |c - m A/D| <= 8 sqrt(m (A/D)(1 - A/D)), i.e.
+\* (c D2 - m A2)^2 <= 64 m A2 (D2 - A2) with A2 = 2A, D2 = 2D -- evaluated in BigNat arithmetic.
+Pow2B(k) == BFromBE(<<2^(k % 8)>> \o [q \in 1..(k \div 8) |-> 0])
+IntB(n) == BFromBE(<<n \div 16777216, (n \div 65536) % 256, (n \div 256) % 256, n % 256>>)
+TwoA2(ord, b, lo) == BAdd(BSub(ord, lo), IF BLt(Pow2B(b), lo) THEN BMul(<<2>>, BSub(lo, Pow2B(b))) ELSE BZero)
+TwoA(ord, b) == TwoA2(ord, b, BMod(ord, Pow2B(b + 1)))
+AbsDiff(x, y) == IF BGeq(x, y) THEN BSub(x, y) ELSE BSub(y, x)
+BitOK3(c, m, a2, d2) == BGeq(BMul(BMul(<<64>>, IntB(m)), BMul(a2, BSub(d2, a2))), BMul(AbsDiff(BMul(IntB(c), d2), BMul(IntB(m), a2)), AbsDiff(BMul(IntB(c), d2), BMul(IntB(m), a2))))
+BitOK(c, m, ord, b) == BitOK3(c, m, TwoA(ord, b), BMul(<<2>>, BSub(ord, <<1>>)))
+OrdOfKind(kd) == IF kd \in {"sm2.keygen", "sm2.sign", "sm2.encrypt", "sm2.kx1", "sm2.kx2"} THEN NN ELSE SM9N
+KindUnbiased(kd) == tst.km[kd] >= 40 => \A j \in 1..256 : BitOK(tst.kc[kd][j], tst.km[kd], OrdOfKind(kd), 256 - j)
+PerKindUnbiased == \A kd \in KindSet : KindUnbiased(kd)
+ASSUME BitOK(15, 50, SM9N, 255) /\ ~BitOK(48, 48, SM9N, 255) /\ BitOK(70, 140, NN, 255) /\ ~BitOK(140, 140, NN, 0) /\ BitOK(30, 48, SM9N, 100)
 Sum1(e) == /\ tst' = tst
-           /\ tlast' = Verdict(e, tst.m = e.count /\ NoRepeat /\ (tst.m >= 500 => Unbiased), "summary",
-                               IF tst.m # e.count THEN "lost-events" ELSE IF ~NoRepeat THEN "scalar-repeated" ELSE "bit-bias")
+           /\ tlast' = Verdict(e, tst.m = e.count /\ NoRepeat /\ (tst.m >= 500 => Unbiased) /\ PerKindUnbiased, "summary",
+                               IF tst.m # e.count THEN "lost-events" ELSE IF ~NoRepeat THEN "scalar-repeated" ELSE IF ~PerKindUnbiased THEN "bit-bias-one-operation" ELSE "bit-bias")
 Step(e) == IF e.op = "rng.op" THEN Op1(e)
            ELSE IF e.op = "rng.summary" THEN Sum1(e)
            ELSE tst' = tst /\ tlast' = <<e.id, "dev", e.prop, "unknown-op", e.op>>
